@@ -6,10 +6,8 @@ import (
 	"fmt"
 
 	"github.com/bbva/qed/balloon"
-	"github.com/bbva/qed/balloon/history"
-	"github.com/bbva/qed/balloon/hyper"
 	"github.com/bbva/qed/crypto/hashing"
-	"github.com/bbva/qed/util"
+	"github.com/bbva/qed/protocol"
 	"github.com/bbva/qed/zzverif/models"
 	"github.com/bbva/qed/zzverif/rt"
 )
@@ -33,13 +31,30 @@ func buildLog(n int, cluster bool) *models.Log {
 	return l
 }
 
-// forged assembles an arbitrary answer the way protocol.ToBalloonProof does
-// (hyper value = padded ActualVersion, key = KeyDigest), with adversarial audit paths.
-func forged(exists bool, actual, query, current uint64, keyDigest hashing.Digest, hyperSize int) *balloon.MembershipProof {
-	hasher := rt.NewHasher(bits)
-	hp := hyper.NewQueryProof(keyDigest, util.Uint64AsPaddedBytes(actual, int(hasher.Len())), hyper.AuditPath(rt.FreeDigestMap("hyper", hyperSize)), hasher)
-	hi := history.NewMembershipProof(actual, query, history.AuditPath(rt.FreeDigestMap10("history", 8)), rt.NewHasher(bits))
-	return balloon.NewMembershipProof(exists, hp, hi, current, query, actual, keyDigest, rt.NewHasher(bits))
+// forged is an arbitrary answer of the server, turned into a proof by the real
+// protocol.ToBalloonProof (as client.MembershipVerify does). Hyper audit path: an
+// adversarial map in which every key the verifier looks up is present with a free value
+// and whose size is chosen. History audit path: a real map holding a free value at every
+// position a verification for a version below 2^maxH can read (the verifier reads only
+// positions inside the tree of the version it replays; an absent entry can only make it
+// reject, so "everything present, everything free" is the strongest adversary).
+func forged(exists bool, actual, query, current uint64, keyDigest hashing.Digest, hyperSize int, maxH uint) *balloon.MembershipProof {
+	hist := map[string]hashing.Digest{}
+	for h := uint(0); h <= maxH; h++ {
+		for i := uint64(0); i < 1<<maxH; i += 1 << h {
+			hist[fmt.Sprintf("%d|%d", i, h)] = rt.Digest(fmt.Sprintf("hist-%d-%d", i, h))
+		}
+	}
+	mr := &protocol.MembershipResult{
+		Exists:         exists,
+		Hyper:          rt.FreeDigestMap("hyper", hyperSize),
+		History:        hist,
+		CurrentVersion: current,
+		QueryVersion:   query,
+		ActualVersion:  actual,
+		KeyDigest:      keyDigest,
+	}
+	return protocol.ToBalloonProof(mr, rt.HasherF(bits))
 }
 
 func accept(p *balloon.MembershipProof, d hashing.Digest, s *balloon.Snapshot) (ok bool) {
@@ -49,14 +64,69 @@ func accept(p *balloon.MembershipProof, d hashing.Digest, s *balloon.Snapshot) (
 	return ok
 }
 
-func run(cluster bool) {
+// run: recombine=false — the answer names the version the client asked about (all other
+// fields and entries arbitrary); recombine=true — QueryVersion and CurrentVersion are the
+// server's to choose as well (an answer recombined from genuine answers for other versions),
+// with the remaining dimensions narrowed (stated in the evidence bounds).
+func run(cluster, recombine bool) {
 	N := rt.Param("N", 2)
 	n := 1 + rt.Choose("n", N)
 	l := buildLog(n, cluster)
 
+	exists := rt.Bool("exists")
+	// the version the client asked about: it holds that version's snapshot (it must exist)
+	asked := uint64(rt.Choose("asked", n))
+	query := asked
+	// CurrentVersion is not authenticated by anything the client holds
+	current := rt.U64("current-big")
+	rt.Assume(current > uint64(n)+1)
+	far := false
+	if recombine {
+		switch rt.Choose("query-kind", 4) {
+		case 1:
+			query = uint64(n - 1) // the last version of the log
+		case 2:
+			query = uint64(n) // just beyond the log
+		case 3:
+			// far beyond (a free 64-bit version would make the replayed tree's shape symbolic,
+			// which the engine cannot decide: a representative, stated bound)
+			query = 1 << 32
+			far = true
+		}
+		switch rt.Choose("current-kind", 4) {
+		case 1:
+			current = asked
+		case 2:
+			current = uint64(n - 1)
+		case 3:
+			current = 0
+		}
+	}
+	var actual uint64
+	// (a free 64-bit ActualVersion against a 33-level replay forks on every level: with the far
+	// QueryVersion the claimed version stays small)
+	actualSmall := far || rt.Choose("actual-kind", 2) == 0
+	if actualSmall {
+		if recombine {
+			actual = uint64(rt.Choose("actual", n+1))
+		} else {
+			actual = uint64(rt.Choose("actual", int(asked)+1))
+		}
+	} else {
+		actual = rt.U64("actual-big")
+		rt.Assume(actual > asked)
+	}
+
 	// the digest the client asks about: an inserted one, or another one sharing a cache path with event 0
 	var d hashing.Digest
 	which := rt.Choose("client-digest", n+1)
+	if recombine {
+		// narrowed: the digest inserted at the claimed version (if any), or a fresh one
+		which = n
+		if rt.Choose("client-digest-genuine", 2) == 1 && actualSmall && actual < uint64(n) {
+			which = int(actual)
+		}
+	}
 	if which < n {
 		d = l.Digests[which]
 	} else {
@@ -69,26 +139,23 @@ func run(cluster bool) {
 			rt.Assume(!bytes.Equal(d, l.Digests[k]))
 		}
 	}
-
-	exists := rt.Bool("exists")
-	query := uint64(rt.Choose("query", n)) // the client fetches snapshot[query]: it must exist
-	current := rt.U64("current")
-	var actual uint64
-	if rt.Choose("actual-kind", 2) == 0 {
-		actual = uint64(rt.Choose("actual", int(query)+1))
-	} else {
-		actual = rt.U64("actual-big")
-		rt.Assume(actual > query)
-	}
 	key := rt.Bytes("keydigest", bits/8)
-	size := sizes[rt.Choose("hyper-size", rt.Param("SIZES", 4))]
-	p := forged(exists, actual, query, current, key, size)
+	size := sizes[0]
+	if !recombine {
+		size = sizes[rt.Choose("hyper-size", rt.Param("SIZES", 4))]
+	}
+	maxH := uint(1)
+	for 1<<maxH < n+2 {
+		maxH++
+	}
+	p := forged(exists, actual, query, current, key, size, maxH)
 
-	snap := &balloon.Snapshot{EventDigest: d, HistoryDigest: l.Snaps[query].HistoryDigest, HyperDigest: l.Snaps[n-1].HyperDigest, Version: query}
+	snap := &balloon.Snapshot{EventDigest: d, HistoryDigest: l.Snaps[asked].HistoryDigest, HyperDigest: l.Snaps[n-1].HyperDigest, Version: asked}
 	if accept(p, d, snap) {
 		rt.Reach("accepted")
 		rt.Assert(exists, "accepted=>claims-existence")
 		rt.Assert(actual <= query, "accepted=>actual<=query")
+		rt.Assert(actual <= asked, "accepted=>not-later-than-the-asked-version")
 		if actual < uint64(n) {
 			rt.Assert(bytes.Equal(d, l.Digests[actual]), "accepted=>digest-inserted-at-actual")
 		} else {
@@ -98,8 +165,10 @@ func run(cluster bool) {
 	rt.Cover(true, "ran")
 }
 
-func Spread()  { run(false) }
-func Cluster() { run(true) }
+func Spread()            { run(false, false) }
+func Cluster()           { run(true, false) }
+func Recombined()        { run(false, true) }
+func RecombinedCluster() { run(true, true) }
 
 // Genuine: the honest answer is accepted (reachability of acceptance through the same harness shape).
 func Twin() {
